@@ -53,6 +53,32 @@ fn main() {
                 Err(_) => println!("{{\"panicked\":true}}"),
             }
         }
+        "slices" => {
+            // slices: reads lines `len start stop step` (start/stop may be `-` for omitted) from stdin, evaluates the slice
+            // expression on [0, 1, .., len-1] through compile+search, prints one JSON line per probe
+            use std::io::BufRead;
+            let stdin = std::io::stdin();
+            for line in stdin.lock().lines() {
+                let line = line.unwrap();
+                let f: Vec<&str> = line.split_whitespace().collect();
+                if f.len() != 4 { continue; }
+                let n: usize = f[0].parse().unwrap();
+                let part = |x: &str| if x == "-" { String::new() } else { x.to_string() };
+                let expr = format!("@[{}:{}:{}]", part(f[1]), part(f[2]), part(f[3]));
+                let doc = format!("[{}]", (0..n).map(|i| i.to_string()).collect::<Vec<_>>().join(","));
+                let r = panic::catch_unwind(|| match compile(&expr) {
+                    Err(e) => format!("\"compile_err\":{:?}", format!("{:?}", e.reason)),
+                    Ok(x) => match x.search(Variable::from_json(&doc).unwrap()) {
+                        Ok(v) => format!("\"ok\":{}", v),
+                        Err(e) => format!("\"search_err\":{:?}", format!("{:?}", e.reason)),
+                    },
+                });
+                match r {
+                    Ok(s) => println!("{{\"probe\":{:?},\"expr\":{:?},{}}}", line, expr, s),
+                    Err(_) => println!("{{\"probe\":{:?},\"expr\":{:?},\"panicked\":true}}", line, expr),
+                }
+            }
+        }
         "searchfile" => {
             // searchfile <file with expression> <json>   (no catch_unwind: a stack overflow aborts the process)
             let e = std::fs::read_to_string(&a[2]).unwrap();
